@@ -25,7 +25,6 @@ fn bad<T>(prop: &'static str, what: String) -> Result<T, (&'static str, String)>
     Err((prop, what))
 }
 
-const T_BLOCK: Duration = Duration::from_millis(12);
 
 // ---------------------------------------------------------------------------------------------
 // directed scenarios
@@ -140,7 +139,7 @@ fn run_scen(sc: Scen, prefix: &[usize]) -> (SchedRun, V) {
             let sub = slot_with(ob.subscribe());
             let res = slot();
             let w = ob.clone();
-            let run = run_schedule(vec![poll_role(sub.clone(), res.clone()), Box::new(move || { w.set(1); })], prefix, T_BLOCK);
+            let run = run_schedule(vec![poll_role(sub.clone(), res.clone()), Box::new(move || { w.set(1); })], prefix, t_block());
             let v = settle(&sub, &res, false, true, Some(1), "poll || set");
             drop(ob);
             (run, v)
@@ -149,7 +148,7 @@ fn run_scen(sc: Scen, prefix: &[usize]) -> (SchedRun, V) {
             let ob = SharedObservable::new(0u64);
             let sub = slot_with(ob.subscribe());
             let res = slot();
-            let run = run_schedule(vec![poll_role(sub.clone(), res.clone()), Box::new(move || drop(ob))], prefix, T_BLOCK);
+            let run = run_schedule(vec![poll_role(sub.clone(), res.clone()), Box::new(move || drop(ob))], prefix, t_block());
             let v = settle(&sub, &res, true, false, None, "poll || drop of the last owner");
             (run, v)
         }
@@ -162,7 +161,7 @@ fn run_scen(sc: Scen, prefix: &[usize]) -> (SchedRun, V) {
             let run = run_schedule(
                 vec![poll_role(s1.clone(), r1.clone()), poll_role(s2.clone(), r2.clone()), Box::new(move || { w.set(1); })],
                 prefix,
-                T_BLOCK,
+                t_block(),
             );
             let v = settle(&s1, &r1, false, true, Some(1), "poll s1 || poll s2 || set (s1)")
                 .and_then(|_| settle(&s2, &r2, false, true, Some(1), "poll s1 || poll s2 || set (s2)"));
@@ -184,7 +183,7 @@ fn run_scen(sc: Scen, prefix: &[usize]) -> (SchedRun, V) {
                     }),
                 ],
                 prefix,
-                T_BLOCK,
+                t_block(),
             );
             let v = settle(&sub, &res, false, true, Some(1), "poll || drop of a non-last clone, then set");
             drop(ob);
@@ -205,7 +204,7 @@ fn run_scen(sc: Scen, prefix: &[usize]) -> (SchedRun, V) {
                     Box::new(move || drop(ob)),
                 ],
                 prefix,
-                T_BLOCK,
+                t_block(),
             );
             let v = settle(&sub, &res, true, false, Some(1), "poll || set || close");
             (run, v)
@@ -226,7 +225,7 @@ fn run_scen(sc: Scen, prefix: &[usize]) -> (SchedRun, V) {
                     }),
                 ],
                 prefix,
-                T_BLOCK,
+                t_block(),
             );
             let v = settle(&sub, &res, false, true, Some(1), "unique: poll || set");
             drop(obs);
@@ -236,7 +235,7 @@ fn run_scen(sc: Scen, prefix: &[usize]) -> (SchedRun, V) {
             let ob = Observable::new(0u64);
             let sub = slot_with(Observable::subscribe(&ob));
             let res = slot();
-            let run = run_schedule(vec![poll_role(sub.clone(), res.clone()), Box::new(move || drop(ob))], prefix, T_BLOCK);
+            let run = run_schedule(vec![poll_role(sub.clone(), res.clone()), Box::new(move || drop(ob))], prefix, t_block());
             let v = settle(&sub, &res, true, false, None, "unique: poll || drop");
             (run, v)
         }
@@ -247,7 +246,7 @@ fn run_scen(sc: Scen, prefix: &[usize]) -> (SchedRun, V) {
             let first = poll_stream_once(&mut s);
             let sub = slot_with(s);
             let res = slot_with(first);
-            let run = run_schedule(vec![Box::new(move || drop(ob)), Box::new(move || drop(c2))], prefix, T_BLOCK);
+            let run = run_schedule(vec![Box::new(move || drop(ob)), Box::new(move || drop(c2))], prefix, t_block());
             let v = settle(&sub, &res, true, false, None, "two threads drop the last two clones");
             (run, v)
         }
@@ -262,7 +261,7 @@ fn run_scen(sc: Scen, prefix: &[usize]) -> (SchedRun, V) {
             let run = run_schedule(
                 vec![Box::new(move || drop(ob)), Box::new(move || drop(c2)), Box::new(move || drop(c3))],
                 prefix,
-                T_BLOCK,
+                t_block(),
             );
             let v = settle(&sub, &res, true, false, None, "three threads drop the last three clones");
             (run, v)
@@ -292,7 +291,7 @@ fn run_scen(sc: Scen, prefix: &[usize]) -> (SchedRun, V) {
             if with_poll {
                 roles.push(poll_role(sub.clone(), res.clone()));
             }
-            let run = run_schedule(roles, prefix, T_BLOCK);
+            let run = run_schedule(roles, prefix, t_block());
             let upgraded = handle.lock().unwrap().is_some();
             let who = if with_poll { "drop || upgrade || poll" } else { "drop of the last clone || upgrade" };
             let mut v = if upgraded {
@@ -367,7 +366,7 @@ fn free_round_c02(seed: u64, pm: u64) -> Result<(u64, u64, u64), (&'static str, 
     let unique = rng.chance(1, 4);
     let n_subs = rng.range(1, 3);
     let n_writers = if unique { 1 } else { rng.range(1, 2) };
-    let sets = rng.range(1, 12);
+    let sets = if small() { rng.range(1, 4) } else { rng.range(1, 12) };
     let quiesce = Arc::new(Quiesce(AtomicBool::new(false)));
     let uniq_ob = if unique { Some(Observable::new(0u64)) } else { None };
     let shared_ob = if unique { None } else { Some(SharedObservable::new(0u64)) };
@@ -683,7 +682,7 @@ fn round_w1(seed: u64, pm: u64) -> Result<(usize, usize), String> {
     install_hook();
     let mut rng = Rng::new(seed);
     let threads = rng.range(2, 4);
-    let ops = rng.range(10, 80);
+    let ops = if small() { rng.range(4, 10) } else { rng.range(10, 80) };
     let contended_mode = rng.chance(1, 2);
     let ob = SharedObservable::new(0u64);
     let clock = Arc::new(Clock(AtomicU64::new(0)));
@@ -758,7 +757,7 @@ fn round_w2(seed: u64, pm: u64) -> Result<(usize, usize), String> {
     let mut rng = Rng::new(seed);
     let writers = rng.range(2, 3);
     let n_subs = rng.range(1, 2);
-    let ops = rng.range(8, 50);
+    let ops = if small() { rng.range(3, 8) } else { rng.range(8, 50) };
     let ob = SharedObservable::new(Vec::<u64>::new());
     let clock = Arc::new(Clock(AtomicU64::new(0)));
     let writers_done = Arc::new(Quiesce(AtomicBool::new(false)));
@@ -983,7 +982,7 @@ fn round_w3(seed: u64, pm: u64) -> Result<(usize, usize), String> {
     install_hook();
     let mut rng = Rng::new(seed);
     let writers = rng.range(1, 2);
-    let rounds = rng.range(3, 12);
+    let rounds = if small() { rng.range(2, 3) } else { rng.range(3, 12) };
     let write_guard = rng.chance(1, 2);
     let ob = SharedObservable::new(0u64);
     let clock = Arc::new(Clock(AtomicU64::new(0)));
@@ -999,7 +998,7 @@ fn round_w3(seed: u64, pm: u64) -> Result<(usize, usize), String> {
             let mut log: Vec<(u64, u64, bool)> = vec![]; // inv, res, is_write
             let mut i = 0u64;
             let mut rng = Rng::new(tseed);
-            while !stop.load(AO::SeqCst) && log.len() < 4000 {
+            while !stop.load(AO::SeqCst) && log.len() < if small() { 60 } else { 4000 } {
                 i += 1;
                 let inv = clock.tick();
                 let w = rng.chance(2, 3);
@@ -1103,7 +1102,7 @@ fn round_w1_async(seed: u64, pm: u64) -> Result<(usize, usize), String> {
     install_hook();
     let mut rng = Rng::new(seed);
     let threads = rng.range(2, 4);
-    let ops = rng.range(10, 60);
+    let ops = if small() { rng.range(3, 8) } else { rng.range(10, 60) };
     let contended_mode = rng.chance(1, 2);
     let ob: SharedObservable<u64, AsyncLock> = SharedObservable::new_async(0u64);
     let clock = Arc::new(Clock(AtomicU64::new(0)));
@@ -1251,6 +1250,22 @@ pub fn run_rounds(
     out
 }
 
+fn sched_budget(p: &Params, quick: usize, thorough: usize) -> usize {
+    if let Some(m) = p.max_schedules {
+        return m.max(1);
+    }
+    match p.san_cases {
+        Some(c) => (c as usize).clamp(1, quick),
+        None => {
+            if p.thorough {
+                thorough
+            } else {
+                quick
+            }
+        }
+    }
+}
+
 fn want(p: &Params, part: &str) -> bool {
     p.part == "all" || p.part == part
 }
@@ -1261,7 +1276,7 @@ pub fn run_c02(p: &Params) -> Outcome {
         out.merge(crate::runners_obs::run_c02_seq(p));
     }
     if want(p, "threads") {
-        out.merge(run_directed("C02", C02_SCENS, p, if p.thorough { 3000 } else { 400 }));
+        out.merge(run_directed("C02", C02_SCENS, p, sched_budget(p, 400, 3000)));
         out.merge(run_free_c02("C02", p, p.n(1_500, 40_000)));
     }
     out
@@ -1273,7 +1288,7 @@ pub fn run_c03(p: &Params) -> Outcome {
         out.merge(crate::runners_obs::run_c03_seq(p));
     }
     if want(p, "threads") {
-        out.merge(run_directed("C03", C03_SCENS, p, if p.thorough { 3000 } else { 400 }));
+        out.merge(run_directed("C03", C03_SCENS, p, sched_budget(p, 400, 3000)));
         out.merge(run_free_c02("C03", p, p.n(1_000, 30_000)));
     }
     out
@@ -1283,7 +1298,7 @@ pub fn run_c04(p: &Params) -> Outcome {
     let mut out = Outcome::default();
     // the lock-exclusion invariant is evaluated by the director in every scenario
     let all: Vec<Scen> = C02_SCENS.iter().chain(C03_SCENS.iter()).copied().collect();
-    out.merge(run_directed("C04", &all, p, if p.thorough { 1500 } else { 200 }));
+    out.merge(run_directed("C04", &all, p, sched_budget(p, 200, 1500)));
     out.merge(run_rounds("C04", p, "w1-register", p.n(1_500, 60_000), round_w1));
     out.merge(run_rounds("C04", p, "w2-append-list", p.n(800, 30_000), round_w2));
     out.merge(run_rounds("C04", p, "w3-guards", p.n(600, 20_000), round_w3));
